@@ -120,6 +120,8 @@ Seeds == <<
   [n |-> "try-impl-with-syntax-error", t |-> "type St = | Bad | Good\nimplement Try for St {\n fn branch(self) -> ControlFlow<St, St> {\n match self {\n .Bad -> .Break(self)\n .Good -> .Continueself)\n }\n }\n fn from_residual(r: St) -> St { r }\n}\nfn t() -> St {\n St.Good?\n St.Bad\n}\n"],
   [n |-> "array-without-type-argument", t |-> "let a: array<> = [1]\na[0]"],
   [n |-> "unterminated-multiline-string", t |-> "\"\"\"a\n\n"],
+  [n |-> "if-else-chain-in-constrained-argument", t |-> "let v = true\nprintln(if v { \"b\" } else { if v { \"b\" } else { if v { \"b\" } else { if v { \"b\" } else { if v { \"b\" } else { if v { \"b\" } else { if v { \"b\" } else { if v { \"b\" } else { if v { \"b\" } else { \"b\" } } } } } } } } })"],
+  [n |-> "if-else-tree-in-constrained-argument", t |-> "let v = true\nprintln(if v { if v { if v { 1 } else { 1 } } else { if v { 1 } else { 1 } } } else { if v { if v { 1 } else { 1 } } else { if v { 1 } else { 1 } } })"],
   [n |-> "empty",               t |-> ""],
   [n |-> "hello",               t |-> "println(\"hello\")"]
 >>
